@@ -105,7 +105,13 @@ def _tput(tp):
 
 
 def arch_yaml(w, keep=None) -> str:
-    """keep: optional {comp: {"keep": expr, "may_keep": expr}} (mapper runs)."""
+    """keep: optional {comp: {"keep": expr, "may_keep": expr}} (mapper runs).
+    Optional w["escale"] / w["tscale"] ([n, d]) multiply every per-action energy and leak power /
+    every throughput (configuration actions of C19)."""
+    es = _fr(w.get("escale", [1, 1]))
+    tsc = _fr(w.get("tscale", [1, 1]))
+    E = lambda x: _num(Fraction(x) * es)
+    T = lambda tp: "inf" if tp[1] == 0 else _num(_fr(tp) * tsc)
     out = ["arch:", "  nodes:"]
     comps = sorted(w["level"], key=lambda c: w["level"][c])
     for c in comps:
@@ -118,7 +124,7 @@ def arch_yaml(w, keep=None) -> str:
             out.append("    skip_initial_output_write: %s" % ("True" if w["skip"][c] else "False"))
         else:
             out.append("    direction: {%s}" % ", ".join("%s: %s" % (t, w["dir"][c][t]) for t in w["tensors"]))
-        out.append("    leak_power: %d" % cc["leak"])
+        out.append("    leak_power: %s" % E(cc["leak"]))
         out.append("    area: 0")
         if keep and c in keep:
             out.append("    tensors: {keep: %s, may_keep: %s}" % (json.dumps(keep[c]["keep"]), json.dumps(keep[c]["may_keep"])))
@@ -134,7 +140,7 @@ def arch_yaml(w, keep=None) -> str:
             out.append("    values_per_action: {%s}" % ", ".join("%s: %s" % (t, _num(_fr(v))) for t, v in cv.items()))
         out.append("    actions:")
         for a in (("read",) if toll else ACTIONS):
-            ent = ["name: %s" % a, "energy: %d" % cc["energy"][a], "throughput: %s" % _tput(cc["tput"][a])]
+            ent = ["name: %s" % a, "energy: %s" % E(cc["energy"][a]), "throughput: %s" % T(cc["tput"][a])]
             if cc["abpa"][a]:
                 ent.append("bits_per_action: %d" % cc["abpa"][a])
             av = {t: v for t, v in cc["avpa"][a].items() if v[0]}
@@ -143,8 +149,8 @@ def arch_yaml(w, keep=None) -> str:
             out.append("    - {%s}" % ", ".join(ent))
     out += ["  - !Compute", "    name: MAC",
             "    skip_initial_output_write: %s" % ("True" if w["cskip"] else "False"),
-            "    leak_power: %d" % w["mac"]["leak"], "    area: 0", "    actions:",
-            "    - {name: compute, energy: %d, throughput: %s}" % (w["mac"]["energy"], _tput(w["mac"]["tput"]))]
+            "    leak_power: %s" % E(w["mac"]["leak"]), "    area: 0", "    actions:",
+            "    - {name: compute, energy: %s, throughput: %s}" % (E(w["mac"]["energy"]), T(w["mac"]["tput"]))]
     return "\n".join(out) + "\n"
 
 
@@ -153,8 +159,12 @@ def workload_yaml(w) -> str:
     for r, b in w["bound"].items():
         out.append("    %s: 0 <= %s < %d" % (r, r, b))
     out.append("  bits_per_value: {%s}" % ", ".join("%s: %d" % (t, w["wbits"][t]) for t in w["tensors"]))
+    if w.get("ninst", 1) != 1:
+        out.append("  n_instances: %d" % w["ninst"])
     out.append("  einsums:")
     out.append("  - name: E")
+    if w.get("einst", 1) != 1:
+        out.append("    n_instances: %d" % w["einst"])
     out.append("    tensor_accesses:")
     for t in w["tensors"]:
         out.append("    - {name: %s, projection: [%s]%s}" % (
